@@ -64,6 +64,10 @@ def run_fn(c) -> CaseResult:
         res.labels.append("degenerate")
         return res
     up = pb.rt(tuple(y.shape), c["seedG"], "normal", y.dtype, salt=3)
+    if c.get("up_layout") == "partial-reduction" and y.dim() >= 2:
+        # the gradient a partial reduction (y.sum(dim=k)) sends back: constant along one dimension, stride 0 there
+        up = up.narrow(c["seedG"] % y.dim(), 0, 1).expand(y.shape)
+        res.labels.append("upstream=partial-reduction")
     g = torch.autograd.grad(y, ts, up, allow_unused=True)
     tol = TOL[c["dtype"]]
     if op == "rms_norm":
@@ -114,6 +118,9 @@ def run_mod(c) -> CaseResult:
     if not bool(torch.isfinite(y.detach()).all()):
         return res
     up = torch.randn(y.shape, generator=torch.Generator().manual_seed(c["seed"] + 5), dtype=y.dtype)
+    if c["seed"] % 3 == 0 and y.dim() >= 2:
+        up = up.narrow(c["seed"] % y.dim(), 0, 1).expand(y.shape)   # as sent back by y.sum(dim=k)
+        res.labels.append("upstream=partial-reduction")
     g = torch.autograd.grad(y, diff, up, allow_unused=True)
     try:
         torch._dynamo.reset()
